@@ -508,6 +508,102 @@ def gen_long(rng, count):
     return L
 
 
+def gen_rm(rng, count):
+    """token removal, both functions: element lists built from words that contain the token as a
+    proper prefix / with inner blanks / empty elements; `rmt` with EVERY buffer size 0..len+2,
+    `rmts` on the normalised form against several token lists"""
+    L = []
+    toks = [b"close", b"a", b"Keep-Alive", b"x-y"]
+    for _ in range(count):
+        t = rng.choice(toks)
+        words = [t, swapcase(t), t + b"d", t[:-1] or b"q", t + b" x", t + b"\t \tx", t + b"  " + t, b"b " + t, b"", b" ", b"\t",
+                 b"up  grade", b"z", t + t, b"a\tb  c"]
+        parts = []
+        for _ in range(rng.randint(0, 5)):
+            parts.append(rng.choice([b"", b" ", b"\t", b" \t"]) + rng.choice(words) + rng.choice([b"", b" ", b"\t", b"  "]))
+        s = b",".join(parts)
+        for k in range(len(s) + 3):
+            L.append("rmt %s %s %d" % (hx(s), hx(t), k))
+        ns = ref_remove_token(s, b"\x01")[0]
+        el = ns.split(b", ") if ns else []
+        lists = {t, t + b"," + b"z", b" , " + swapcase(t) + b" ,\t" + b"up  grade", b"zz,q", b"", b",, ,",
+                 (rng.choice(el) if el else b"n"), b" , ".join(el[::2]), (el[-1][:-1] if el and len(el[-1]) > 1 else b"w")}
+        for tk in sorted(lists):
+            L.append("rmts %s %s" % (hx(ns), hx(tk)))
+    return L
+
+
+_RMT_MEMO = [None, None, 0, 0]
+
+
+def rm_classify(w, h, c):
+    """input-class counters for the two removal functions (c: dict name -> count); `h` = what the real code returned"""
+    def bump(k):
+        c[k] = c.get(k, 0) + 1
+    if w[0] == "rmt":
+        size = int(w[3])
+        key = (w[1], w[2])
+        if _RMT_MEMO[0] != key:      # the same (string, token) comes with many sizes: classify it once
+            s, t = unhx(w[1]), unhx(w[2])
+            fl = []
+            if token_ok(t):
+                el = elems(s)
+                if any(len(e) > len(t) and ceq(e[:len(t)], t) for e in el):
+                    fl.append("rmt.token_is_proper_prefix_of_an_element")
+                if any(len(e) > len(t) and ceq(e[:len(t)], t) and e[len(t)] in WS for e in el):
+                    fl.append("rmt.token_then_blank_then_more(F17c shape)")
+                if any(norm_elem(e) != e for e in el):
+                    fl.append("rmt.element_with_inner_blank_run_to_normalise")
+                if any(b" " in norm_elem(e) for e in el):
+                    fl.append("rmt.element_with_inner_blank")
+                if any(not e for e in el) and s:
+                    fl.append("rmt.empty_element")
+                if any(ceq(e, t) for e in el):
+                    fl.append("rmt.token_present")
+                need = len(ref_remove_token(s, t)[0])
+                if need > len(s):
+                    fl.append("rmt.output_longer_than_input")
+                _RMT_MEMO[:] = [key, fl, need, len(s)]
+            else:
+                _RMT_MEMO[:] = [key, None, 0, 0]
+        _, fl, need, n = _RMT_MEMO
+        if fl is None:
+            bump("rmt.token_outside_domain"); return
+        bump("rmt.calls")
+        for k in fl:
+            bump(k)
+        bump("rmt.size_lt_need" if size < need else "rmt.size_eq_need" if size == need else "rmt.size_gt_need")
+        if size == 0:
+            bump("rmt.size_0")
+        if size == n + 2:
+            bump("rmt.size_len_plus_2")
+        if h.startswith("r=0 n=-1"):
+            bump("rmt.reported_too_small")
+    elif w[0] == "rmts":
+        s, tk = unhx(w[1]), unhx(w[2])
+        if not normalised(s) or 0 in tk:
+            bump("rmts.outside_domain"); return
+        el = s.split(b", ") if s else []
+        tl = [t for t in elems(tk) if t]
+        bump("rmts.calls")
+        if any(len(e) > len(t) and ceq(e[:len(t)], t) for e in el for t in tl):
+            bump("rmts.token_is_proper_prefix_of_an_element")
+        if any(b" " in e for e in el):
+            bump("rmts.element_with_inner_blank")
+        if any(not t for t in elems(tk)) and tk:
+            bump("rmts.empty_token_in_list")
+        if any(b" " in t or b"\t" in t for t in tl):
+            bump("rmts.token_with_inner_blank")
+        n_rm = sum(1 for e in el if any(ceq(e, t) for t in tl))
+        bump("rmts.removed_none" if n_rm == 0 else "rmts.removed_all" if n_rm == len(el) else "rmts.removed_some")
+        if len(tl) > 1:
+            bump("rmts.several_tokens")
+        if any(len(s) == len(t) for t in tl):
+            bump("rmts.token_as_long_as_string")
+        if any(len(t) < len(s) <= len(t) + 2 for t in tl):
+            bump("rmts.string_at_most_2_longer_than_token")
+
+
 # --------------------------------------------------------------------------- checking
 
 def sig_of(text):
@@ -570,6 +666,8 @@ def check_lines(harness, driver, lines, max_fail=8):
             continue
         if not h.startswith("r=0"):
             st[1] += 1
+        if op in ("rmt", "rmts"):
+            rm_classify(w, h, stats.setdefault("_rm", {}))
         exp = expected(w)
         if exp is None:
             st[2] += 1
@@ -603,6 +701,8 @@ def _task(args):
         lines = gen_numbers(random.Random(param[0]), param[1]); n_inputs = len(lines)
     elif kind == "long":
         lines = gen_long(random.Random(param[0]), param[1]); n_inputs = len(lines)
+    elif kind == "rm":
+        lines = gen_rm(random.Random(param[0]), param[1]); n_inputs = len(lines)
     elif kind == "lines":
         lines = param; n_inputs = len(lines)
     fails, stats = check_lines(harness, driver, lines, max_fail=400)
@@ -625,7 +725,8 @@ class Spec:
         "pctDecodeInPlaceStrict_exact", "pctDecodeInPlaceLenient_exact", "inPlaceStrict_eq_copying",
         "inPlaceLenient_eq_copying", "unquote_exact", "quote_exact", "unquoteSpec_quoteSpec", "equalQuoted_iff",
         "equalCaselessQuoted_exact", "base64ToBinN_exact", "charsEqualCaseless_lower", "equalCaseless_exact",
-        "equalCaselessN_exact", "uint32ToStrx_exact", "strx_print_parse_roundtrip", "hasToken_iff_member", "removeToken_safe_partial",
+        "equalCaselessN_exact", "uint32ToStrx_exact", "strx_print_parse_roundtrip", "hasToken_iff_member", "removeToken_exact", "removeToken_safe_any_token",
+        "removeTokens_exact", "removeToken_output_normalised", "removeTokens_after_removeToken",
         "nofault_parse", "nofault_print", "nofault_codecs", "nofault_inplace", "nofault_compare", "nofault_hasToken")]
     trusted_base = ["Lean 4 kernel", "axioms: propext, Classical.choice, Quot.sound at most (audited per theorem)",
                     "hand-written model lean/Mhd/Model/Str*.lean tied to mhd_str.c by this run's correspondence",
@@ -636,7 +737,7 @@ class Spec:
     assumptions = ["the model follows mhd_str.c with build/fixes/F17a-d applied (F12 is already in /repo); until they are "
                    "committed the check reports the four defects on /repo",
                    "configured build: MHD_FAVOR_FAST_CODE, 64-bit size_t, signed char",
-                   "objects are smaller than 2^62 bytes",
+                   "objects are at most SSIZE_MAX bytes (hypothesis of removeToken_exact / quote_exact)",
                    "documented call contracts: non-NULL pointers; z-terminated inputs contain a NUL; output buffers of "
                    "MHD_bin_to_hex / MHD_hex_to_bin / MHD_str_unquote have the documented size; tokens contain no NUL, "
                    "space, tab or comma; MHD_str_remove_tokens_caseless_ is given a normalised string; min_digits <= 3"]
@@ -676,16 +777,20 @@ class Spec:
         for i in range(nrand):
             T.append(("numbers", (ctx.rng.getrandbits(48), 1500)))
             T.append(("long", (ctx.rng.getrandbits(48), 1500)))
+            T.append(("rm", (ctx.rng.getrandbits(48), 120)))
         return T
 
     def explore(self, ctx, boost):
         tasks = [(self.harness, self.driver, k, p) for k, p in self.tasks(ctx, boost)]
         failures, stats, nsig, allf = [], {}, {}, []
-        counts = {"strings": [0, 0], "chars": [0, 0], "u16": [0, 0], "numbers": [0, 0], "long": [0, 0], "lines": [0, 0]}
+        counts = {"strings": [0, 0], "chars": [0, 0], "u16": [0, 0], "numbers": [0, 0], "long": [0, 0], "rm": [0, 0], "lines": [0, 0]}
+        rmcov = {}
         samples = []
         with multiprocessing.Pool(min(vlib.NCPU, 16)) as pool:
             for kind, n_inputs, n_lines, fails, st, smp in pool.imap_unordered(_task, tasks, chunksize=1):
                 counts[kind][0] += n_inputs; counts[kind][1] += n_lines
+                for k, v in st.pop("_rm", {}).items():
+                    rmcov[k] = rmcov.get(k, 0) + v
                 for op, (a, b, c) in st.items():
                     s = stats.setdefault(op, [0, 0, 0]); s[0] += a; s[1] += b; s[2] += c
                 allf += fails
@@ -715,6 +820,10 @@ class Spec:
                "inputs": {k: {"inputs": v[0], "calls": v[1]} for k, v in counts.items()},
                "per_function": {op: {"calls": a, "nonzero_result": b, "outside_documented_domain(model-vs-code only)": c}
                                 for op, (a, b, c) in sorted(stats.items())},
+               "token_removal_input_classes": dict(sorted(rmcov.items())),
+               "token_removal_note": "rmt: every string of the bounded-exhaustive domain and every string of the 'rm' generator is run "
+                                     "with EVERY output size 0..len+2 (and beyond, up to 3*len/2+2); rmts runs on the normalised form of "
+                                     "each of these strings against several token lists",
                "corpus_lines": self.ncorpus}
         return failures, cov
 
